@@ -1,8 +1,16 @@
 //! Session-level scripts: connection set-up, script interpreter, random walks.
+//!
+//! A *script* is a JSON array of steps; executing it against the real client produces the
+//! NDJSON trace.  Random walks generate their steps one at a time (they depend on what the
+//! client has put on the wire) and record them, so that every run can be replayed exactly.
 
 use crate::io::WrMode;
 use crate::mqtt::{self, Pk, Prop, PV};
+use crate::opts;
 use crate::sim::{Cmd, Sim, Task};
+use rand::rngs::StdRng;
+use rand::seq::SliceRandom;
+use rand::{Rng, SeedableRng};
 use serde_json::{json, Value};
 
 #[derive(Clone, Debug)]
@@ -34,6 +42,26 @@ impl Default for Params {
     }
 }
 
+impl Params {
+    pub fn to_json(&self) -> Value {
+        json!({"a": "reset", "run": self.run, "fam": self.fam, "R": self.r, "M": self.m,
+               "sei_connect": self.sei_connect, "sei_connack": self.sei_connack, "disc": self.disc, "log_io": self.log_io})
+    }
+    pub fn from_json(v: &Value) -> Params {
+        Params {
+            run: v["run"].as_u64().unwrap_or(0) as usize,
+            fam: v["fam"].as_str().unwrap_or("script").to_string(),
+            r: v["R"].as_u64().map(|x| x as u16),
+            m: v["M"].as_u64().map(|x| x as u32),
+            sei_connect: v["sei_connect"].as_u64().map(|x| x as u32),
+            sei_connack: v["sei_connack"].as_u64().map(|x| x as u32),
+            disc: v["disc"].as_str().unwrap_or("wake").to_string(),
+            log_io: v["log_io"].as_bool().unwrap_or(false),
+            ..Default::default()
+        }
+    }
+}
+
 pub fn connack(p: &Params) -> Pk {
     let mut c = Pk::new(mqtt::CONNACK);
     c.rc = Some(0);
@@ -54,12 +82,17 @@ pub fn effective_sei(p: &Params) -> u32 {
     p.sei_connack.or(p.sei_connect).unwrap_or(0)
 }
 
-/// New client, connected and with `run()` started (not yet polled). The handshake itself is
-/// not traced; the `reset` line carries its parameters.
-pub fn start(p: &Params) -> Sim {
-    let mut s = Sim::new();
-    s.log_io = p.log_io;
-    s.pipe.0.lock().unwrap().log_io = p.log_io;
+pub fn sei_kind(s: u32) -> &'static str {
+    if s == 0 {
+        "zero"
+    } else if s == u32::MAX {
+        "never"
+    } else {
+        "finite"
+    }
+}
+
+fn handshake(s: &mut Sim, p: &Params) -> bool {
     s.quiet = true;
     let mut spec = json!({"client_id": "pvh"});
     if let Some(x) = p.sei_connect {
@@ -70,13 +103,25 @@ pub fn start(p: &Params) -> Sim {
     s.inject_packet(&connack(p), 9);
     let r = s.poll_ctx();
     let ok = r.iter().any(|v| v["kind"] == "ConnectRsp");
-    s.wire = Default::default();
+    s.wire.packets.clear();
     s.ctx_results.clear();
+    s.ctx_returned = false;
     s.command(Cmd::Run);
     s.quiet = false;
+    ok
+}
+
+/// New client, connected and with `run()` started (not yet polled). The handshake itself is
+/// not traced; the `reset` line carries its parameters.
+pub fn start(p: &Params) -> Sim {
+    let mut s = Sim::new();
+    s.log_io = p.log_io;
+    s.pipe.0.lock().unwrap().log_io = p.log_io;
+    let ok = handshake(&mut s, p);
+    let sei = effective_sei(p);
     s.emit(json!({
         "e": "reset", "run": p.run, "fam": p.fam, "R": p.r.unwrap_or(65535), "M": p.m.unwrap_or(0),
-        "sei": effective_sei(p), "disc": p.disc, "mode": p.mode, "ok": ok as u8,
+        "sei": if sei == u32::MAX { 0 } else { sei }, "seik": sei_kind(sei), "disc": p.disc, "mode": p.mode, "ok": ok as u8,
     }));
     s
 }
@@ -91,53 +136,675 @@ pub fn ack(t: u8, id: u16, rc: u8) -> Pk {
     a
 }
 
-pub fn run_woken(s: &mut Sim, limit: usize) -> usize {
-    let mut n = 0;
-    loop {
-        let w = s.woken();
-        if w.is_empty() || n >= limit {
-            return n;
-        }
-        for t in w {
-            s.poll_task(&t);
-            n += 1;
+fn props_from_json(v: &Value) -> Vec<Prop> {
+    // [[id, value] ...] where value is int, string/fill, or [k, v] for a pair
+    let mut out = vec![];
+    if let Some(a) = v.as_array() {
+        for p in a {
+            let id = p[0].as_u64().unwrap_or(0) as u8;
+            let pv = match mqtt::prop_kind(id) {
+                Some('b') => PV::Byte(p[1].as_u64().unwrap_or(0) as u8),
+                Some('w') => PV::U16(p[1].as_u64().unwrap_or(0) as u16),
+                Some('d') => PV::U32(p[1].as_u64().unwrap_or(0) as u32),
+                Some('v') => PV::Vbi(p[1].as_u64().unwrap_or(0) as u32),
+                Some('s') => PV::Str(opts::sval(&p[1]).unwrap_or_default()),
+                Some('x') => PV::Bin(opts::bval(&p[1]).unwrap_or_default()),
+                Some('p') => PV::Pair(opts::sval(&p[1]).unwrap_or_default(), opts::sval(&p[2]).unwrap_or_default()),
+                _ => continue,
+            };
+            out.push(Prop { id, v: pv });
         }
     }
+    out
+}
+
+/// Builds a server packet from its JSON description; symbolic references (`{"op": k}` for a packet
+/// identifier, `{"sub": k}` for a subscription identifier) are resolved against what the client wrote.
+pub fn packet_from_json(s: &Sim, v: &Value) -> Option<Pk> {
+    let t = mqtt::tcode(v["t"].as_str()?);
+    let mut pk = Pk::new(t);
+    let id = match &v["id"] {
+        Value::Object(o) => Some(*s.wire.op_id.get(&(o.get("op")?.as_u64()? as usize))?),
+        Value::Number(n) => Some(n.as_u64()? as u16),
+        _ => None,
+    };
+    pk.id = id;
+    pk.rc = v["rc"].as_u64().map(|x| x as u8);
+    pk.props = props_from_json(&v["props"]);
+    match t {
+        mqtt::PUBLISH => {
+            let qos = v["qos"].as_u64().unwrap_or(0) as u8;
+            pk.flags = (qos << 1) | (v["dup"].as_u64().unwrap_or(0) as u8) << 3 | (v["retain"].as_u64().unwrap_or(0) as u8);
+            pk.topic = opts::sval(&v["topic"]).unwrap_or_default();
+            pk.payload = opts::bval(&v["payload"]).unwrap_or_default();
+            if let Some(a) = v["sids"].as_array() {
+                for sid in a {
+                    let n = match sid {
+                        Value::Object(o) => *s.wire.op_sid.get(&(o.get("sub")?.as_u64()? as usize))?,
+                        Value::Number(n) => n.as_u64()? as u32,
+                        _ => continue,
+                    };
+                    pk.props.push(Prop { id: 0x0b, v: PV::Vbi(n) });
+                }
+            }
+            if qos == 0 {
+                pk.id = None;
+            }
+        }
+        mqtt::PUBREL => pk.flags = 2,
+        mqtt::SUBACK | mqtt::UNSUBACK => {
+            pk.rcs = v["rcs"].as_array().map(|a| a.iter().map(|x| x.as_u64().unwrap_or(0) as u8).collect()).unwrap_or_default();
+        }
+        mqtt::CONNACK => {
+            pk.session_present = v["sp"].as_u64().unwrap_or(0) != 0;
+        }
+        _ => {}
+    }
+    Some(pk)
+}
+
+fn task_of(v: &Value) -> Option<Task> {
+    match v["t"].as_str()? {
+        "ctx" => Some(Task::Ctx),
+        "op" => Some(Task::Op(v["k"].as_u64()? as usize)),
+        "st" => Some(Task::St(v["k"].as_u64()? as usize)),
+        _ => None,
+    }
+}
+
+pub fn settle(s: &mut Sim, rng: &mut StdRng, sweep: bool) {
+    let mut polls = 0;
+    for _round in 0..4 {
+        loop {
+            let mut w = s.woken();
+            if w.is_empty() {
+                break;
+            }
+            w.shuffle(rng);
+            for t in w {
+                if s.is_woken(&t) {
+                    s.poll_task(&t);
+                    polls += 1;
+                }
+            }
+            if polls > 20000 {
+                s.emit(json!({"e": "livelock"}));
+                return;
+            }
+        }
+        if !sweep {
+            break;
+        }
+        // every live task once more, without a wake-up
+        let live = s.live();
+        for t in live {
+            if !s.is_woken(&t) {
+                s.poll_task(&t);
+            }
+        }
+        if s.woken().is_empty() {
+            break;
+        }
+    }
+    let unread = if s.ctx_alive() { s.pipe.unread() } else { 0 };
+    s.emit(json!({"e": "quiescent", "unread": unread}));
+}
+
+/// Executes one script step. Returns false if the step could not be applied (it is then
+/// recorded as a `note` line and has no effect).
+pub fn exec_step(s: &mut Sim, rng: &mut StdRng, st: &Value) -> bool {
+    let a = st["a"].as_str().unwrap_or("");
+    let ok = match a {
+        "call" => s.call(st["op"].as_u64().unwrap_or(0) as usize, st["h"].as_u64().unwrap_or(0) as usize, &st["spec"]),
+        "poll" => match task_of(st) {
+            Some(Task::Ctx) => {
+                if s.ctx_alive() {
+                    s.poll_ctx();
+                    true
+                } else {
+                    false
+                }
+            }
+            Some(Task::Op(k)) => s.poll_op(k).is_some(),
+            Some(Task::St(k)) => s.poll_stream(k).is_some(),
+            None => false,
+        },
+        "drop" => {
+            let k = st["k"].as_u64().unwrap_or(0) as usize;
+            match st["t"].as_str().unwrap_or("") {
+                "op" => {
+                    let l = s.op_live(k);
+                    s.drop_op(k);
+                    l
+                }
+                "st" => {
+                    let l = s.stream_live(k);
+                    s.drop_stream(k);
+                    l
+                }
+                "h" => {
+                    s.drop_handle(k);
+                    true
+                }
+                "ctx" => {
+                    let l = s.ctx_alive();
+                    if l {
+                        s.drop_ctx();
+                    }
+                    l
+                }
+                _ => false,
+            }
+        }
+        "clone" => s.clone_handle(st["from"].as_u64().unwrap_or(0) as usize).is_some(),
+        "pkt" => match packet_from_json(s, &st["pk"]) {
+            Some(pk) => {
+                let form = st["form"].as_u64().unwrap_or(9) as u8;
+                let b = mqtt::encode(&pk, form);
+                let split: Vec<usize> = st["split"].as_array().map(|a| a.iter().map(|x| x.as_u64().unwrap_or(1) as usize).collect()).unwrap_or_default();
+                let abs = match mqtt::decode(&b) {
+                    Ok(d) => d.abs(),
+                    Err(_) => {
+                        let mut a = crate::sim::empty_abs();
+                        a["t"] = json!("GARBAGE");
+                        a
+                    }
+                };
+                s.inject_bytes(&b, &split, vec![abs]);
+                true
+            }
+            None => false,
+        },
+        "eof" => {
+            s.eof();
+            true
+        }
+        "rderr" => {
+            s.rderr();
+            true
+        }
+        "wrmode" => {
+            let m = match st["m"].as_str().unwrap_or("accept") {
+                "block" => WrMode::Block,
+                "err" => WrMode::Err,
+                "zero" => WrMode::Zero,
+                "max" => WrMode::Max(st["k"].as_u64().unwrap_or(1) as usize),
+                _ => WrMode::Accept,
+            };
+            s.wr_mode(m);
+            true
+        }
+        "settle" => {
+            settle(s, rng, st["sweep"].as_bool().unwrap_or(true));
+            true
+        }
+        "markdisc" => {
+            let secs = st["secs"].as_u64().unwrap_or(0);
+            s.command(Cmd::MarkDisc(secs));
+            s.quiet = true;
+            s.poll_ctx();
+            s.quiet = false;
+            s.emit(json!({"e": "markdisc", "secs": secs}));
+            true
+        }
+        "reconnect" => {
+            let p = Params::from_json(st);
+            s.new_pipe();
+            let ok = handshake(s, &p);
+            let sei = effective_sei(&p);
+            s.emit(json!({"e": "reconnect", "R": p.r.unwrap_or(65535), "M": p.m.unwrap_or(0),
+                "sei": if sei == u32::MAX { 0 } else { sei }, "seik": sei_kind(sei), "ok": ok as u8}));
+            true
+        }
+        _ => false,
+    };
+    if !ok {
+        s.emit(json!({"e": "note", "skipped": st}));
+    }
+    ok
+}
+
+/// Runs a whole script (first step must be `reset`). Returns the trace lines.
+pub fn run_script(steps: &[Value], seed: u64) -> Vec<String> {
+    let mut rng = StdRng::seed_from_u64(seed);
+    let p = Params::from_json(&steps[0]);
+    let mut s = start(&p);
+    for st in &steps[1..] {
+        exec_step(&mut s, &mut rng, st);
+    }
+    s.trace.clone()
+}
+
+// ---------------------------------------------------------------------------------------------
+// random walks
+
+const PUB_REASONS: [u8; 9] = [0x00, 0x10, 0x80, 0x83, 0x87, 0x90, 0x91, 0x97, 0x99];
+const PUBCOMP_REASONS: [u8; 2] = [0x00, 0x92];
+const SUBACK_REASONS: [u8; 12] = [0, 1, 2, 0x80, 0x83, 0x87, 0x8f, 0x91, 0x97, 0x9e, 0xa1, 0xa2];
+const UNSUBACK_REASONS: [u8; 7] = [0, 0x11, 0x80, 0x83, 0x87, 0x8f, 0x91];
+pub const DISCONNECT_REASONS: [u8; 29] = [
+    0x00, 0x04, 0x80, 0x81, 0x82, 0x83, 0x87, 0x89, 0x8b, 0x8d, 0x8e, 0x8f, 0x90, 0x93, 0x94, 0x95, 0x96, 0x97, 0x98,
+    0x99, 0x9a, 0x9b, 0x9c, 0x9d, 0x9e, 0x9f, 0xa0, 0xa1, 0xa2,
+];
+
+#[derive(Clone, Debug)]
+pub struct WalkCfg {
+    pub profile: String,
+    pub steps: usize,
+    pub max_ops: usize,
+    pub w_call: u32,
+    pub w_poll: u32,
+    pub w_ack: u32,
+    pub w_inbound: u32,
+    pub w_cancel: u32,
+    pub w_dropst: u32,
+    pub w_handle: u32,
+    pub w_wr: u32,
+    pub w_settle: u32,
+    pub w_spur: u32,
+    pub kinds: Vec<(&'static str, u32)>,
+    pub fail_pct: u32,
+    pub content_pct: u32,
+    pub endings: Vec<&'static str>,
+    pub unknown_sid_pct: u32,
+    pub nosid_pct: u32,
+    pub multi_sid_pct: u32,
+    pub redeliver_pct: u32,
+    pub unsolicited_pct: u32,
+}
+
+pub fn profile(name: &str) -> WalkCfg {
+    let base = WalkCfg {
+        profile: name.to_string(),
+        steps: 60,
+        max_ops: 6,
+        w_call: 20,
+        w_poll: 30,
+        w_ack: 25,
+        w_inbound: 10,
+        w_cancel: 0,
+        w_dropst: 0,
+        w_handle: 2,
+        w_wr: 0,
+        w_settle: 8,
+        w_spur: 0,
+        kinds: vec![("pub0", 2), ("pub1", 5), ("pub2", 5), ("sub", 3), ("unsub", 2), ("ping", 2)],
+        fail_pct: 30,
+        content_pct: 30,
+        endings: vec!["none"],
+        unknown_sid_pct: 10,
+        nosid_pct: 10,
+        multi_sid_pct: 0,
+        redeliver_pct: 20,
+        unsolicited_pct: 0,
+    };
+    match name {
+        "ops" => base,
+        "quota" => WalkCfg { kinds: vec![("pub0", 1), ("pub1", 6), ("pub2", 6), ("ping", 1)], w_inbound: 0, max_ops: 8, fail_pct: 40, ..base },
+        "inbound" => WalkCfg {
+            w_call: 10, w_ack: 15, w_inbound: 40, w_dropst: 3, kinds: vec![("sub", 6), ("unsub", 2), ("pub1", 1), ("ping", 1)],
+            multi_sid_pct: 10, ..base
+        },
+        "cancel" => WalkCfg { w_cancel: 10, w_dropst: 4, w_inbound: 12, ..base },
+        "life" => WalkCfg {
+            steps: 25,
+            endings: vec!["disc", "srvdisc0", "srvdisc", "eof", "rderr", "handles", "wrerr", "ctxdrop"],
+            w_cancel: 3, ..base
+        },
+        "wake" => WalkCfg { w_wr: 6, w_spur: 10, w_inbound: 12, ..base },
+        "mixed" => WalkCfg {
+            w_cancel: 4, w_dropst: 2, w_wr: 3, w_inbound: 15, multi_sid_pct: 5, unsolicited_pct: 3,
+            endings: vec!["none", "disc", "srvdisc", "eof", "handles", "ctxdrop"], ..base
+        },
+        _ => base,
+    }
+}
+
+struct Broker {
+    seen: usize,
+    pending: Vec<(u8, u16, usize)>, // (ack type, id, nfilters)
+    pings: usize,
+    q2_open: Vec<(u16, Value)>, // inbound QoS 2 publishes not yet released: (id, packet json)
+    next_in: usize,
+}
+
+fn choose<'a, T>(rng: &mut StdRng, v: &'a [T]) -> &'a T {
+    &v[rng.gen_range(0..v.len())]
+}
+
+fn weighted<'a>(rng: &mut StdRng, v: &[(&'a str, u32)]) -> &'a str {
+    let tot: u32 = v.iter().map(|x| x.1).sum();
+    let mut r = rng.gen_range(0..tot.max(1));
+    for (n, w) in v {
+        if r < *w {
+            return n;
+        }
+        r -= w;
+    }
+    v[0].0
+}
+
+fn ack_content(rng: &mut StdRng, pct: u32) -> Value {
+    let mut props = vec![];
+    if rng.gen_range(0..100) < pct {
+        props.push(json!([0x1f, format!("why{}", rng.gen_range(0..100))]));
+    }
+    if rng.gen_range(0..100) < pct {
+        for i in 0..rng.gen_range(1..3) {
+            props.push(json!([0x26, format!("k{}", i), format!("v{}", rng.gen_range(0..50))]));
+        }
+    }
+    Value::Array(props)
+}
+
+/// One random run. Returns (script, trace).
+pub fn walk(p: &Params, cfg: &WalkCfg, seed: u64) -> (Vec<Value>, Vec<String>) {
+    let mut rng = StdRng::seed_from_u64(seed);
+    let mut script = vec![p.to_json()];
+    let mut s = start(p);
+    let mut b = Broker { seen: 0, pending: vec![], pings: 0, q2_open: vec![], next_in: 0 };
+    let mut next_op = 1usize;
+    let sweep_every = p.disc == "sweep";
+    let do_step = |s: &mut Sim, rng: &mut StdRng, script: &mut Vec<Value>, st: Value| -> bool {
+        let ok = exec_step(s, rng, &st);
+        script.push(st);
+        ok
+    };
+    let mut ended = false;
+    for _ in 0..cfg.steps {
+        // broker observes the wire
+        while b.seen < s.wire.packets.len() {
+            let pk = &s.wire.packets[b.seen];
+            b.seen += 1;
+            match pk.t {
+                mqtt::PUBLISH if pk.qos() == 1 => b.pending.push((mqtt::PUBACK, pk.id.unwrap_or(0), 0)),
+                mqtt::PUBLISH if pk.qos() == 2 => b.pending.push((mqtt::PUBREC, pk.id.unwrap_or(0), 0)),
+                mqtt::PUBREL => b.pending.push((mqtt::PUBCOMP, pk.id.unwrap_or(0), 0)),
+                mqtt::SUBSCRIBE => b.pending.push((mqtt::SUBACK, pk.id.unwrap_or(0), pk.filters.len())),
+                mqtt::UNSUBSCRIBE => b.pending.push((mqtt::UNSUBACK, pk.id.unwrap_or(0), pk.filters.len())),
+                mqtt::PINGREQ => b.pings += 1,
+                _ => {}
+            }
+        }
+        let live_ops = s.live_ops();
+        let live_sts = s.live_streams();
+        let mut menu: Vec<(&str, u32)> = vec![];
+        if live_ops.len() < cfg.max_ops && s.handles.iter().any(|h| h.is_some()) {
+            menu.push(("call", cfg.w_call));
+        }
+        if !s.woken().is_empty() {
+            menu.push(("poll", cfg.w_poll));
+        }
+        if !b.pending.is_empty() || b.pings > 0 {
+            menu.push(("ack", cfg.w_ack));
+        }
+        menu.push(("inbound", cfg.w_inbound));
+        if !live_ops.is_empty() {
+            menu.push(("cancel", cfg.w_cancel));
+        }
+        if !live_sts.is_empty() {
+            menu.push(("dropst", cfg.w_dropst));
+        }
+        menu.push(("handle", cfg.w_handle));
+        menu.push(("wr", cfg.w_wr));
+        menu.push(("settle", cfg.w_settle));
+        if !s.live().is_empty() {
+            menu.push(("spur", cfg.w_spur));
+        }
+        menu.push(("unsol", cfg.unsolicited_pct));
+        let act = weighted(&mut rng, &menu);
+        match act {
+            "call" => {
+                let hs: Vec<usize> = s.handles.iter().enumerate().filter(|(_, h)| h.is_some()).map(|(i, _)| i).collect();
+                let h = *choose(&mut rng, &hs);
+                let k = next_op;
+                next_op += 1;
+                let kind = weighted(&mut rng, &cfg.kinds);
+                let nup = if rng.gen_range(0..100) < 20 { rng.gen_range(1..3) } else { 0 };
+                let ups: Vec<Value> = (0..nup).map(|i| json!([format!("uk{}", i), format!("uv{}", k)])).collect();
+                let spec = match kind {
+                    "pub0" | "pub1" | "pub2" => {
+                        let q = kind.as_bytes()[3] - b'0';
+                        let mut sp = json!({"kind": "pub", "qos": q, "topic": format!("t/{}", k),
+                            "payload": {"tag": format!("p{}", k), "n": *choose(&mut rng, &[0usize, 1, 5, 20, 100, 130, 300])},
+                            "retain": rng.gen_range(0..4) == 0, "ups": ups});
+                        if rng.gen_range(0..5) == 0 {
+                            sp["ctype"] = json!("text/x");
+                        }
+                        if rng.gen_range(0..6) == 0 {
+                            sp["mei"] = json!(60);
+                        }
+                        sp
+                    }
+                    "sub" => {
+                        let nf = rng.gen_range(1..3);
+                        let fl: Vec<Value> = (0..nf).map(|i| json!({"f": format!("f/{}/{}", k, i), "qos": rng.gen_range(0..3)})).collect();
+                        json!({"kind": "sub", "filters": fl, "ups": ups})
+                    }
+                    "unsub" => json!({"kind": "unsub", "filters": [{"f": format!("f/{}", k)}], "ups": ups}),
+                    "ping" => json!({"kind": "ping"}),
+                    _ => json!({"kind": "ping"}),
+                };
+                do_step(&mut s, &mut rng, &mut script, json!({"a": "call", "op": k, "h": h, "spec": spec}));
+            }
+            "poll" => {
+                let w = s.woken();
+                let t = choose(&mut rng, &w).clone();
+                let st = match t {
+                    Task::Ctx => json!({"a": "poll", "t": "ctx"}),
+                    Task::Op(k) => json!({"a": "poll", "t": "op", "k": k}),
+                    Task::St(k) => json!({"a": "poll", "t": "st", "k": k}),
+                };
+                do_step(&mut s, &mut rng, &mut script, st);
+            }
+            "spur" => {
+                let l = s.live();
+                let t = choose(&mut rng, &l).clone();
+                let st = match t {
+                    Task::Ctx => json!({"a": "poll", "t": "ctx"}),
+                    Task::Op(k) => json!({"a": "poll", "t": "op", "k": k}),
+                    Task::St(k) => json!({"a": "poll", "t": "st", "k": k}),
+                };
+                do_step(&mut s, &mut rng, &mut script, st);
+            }
+            "ack" => {
+                if b.pings > 0 && (b.pending.is_empty() || rng.gen_range(0..4) == 0) {
+                    b.pings -= 1;
+                    do_step(&mut s, &mut rng, &mut script, json!({"a": "pkt", "pk": {"t": "PINGRESP"}}));
+                } else {
+                    let i = rng.gen_range(0..b.pending.len());
+                    let (t, id, nf) = b.pending.remove(i);
+                    let fail = rng.gen_range(0..100) < cfg.fail_pct;
+                    let props = ack_content(&mut rng, cfg.content_pct);
+                    let pk = match t {
+                        mqtt::PUBACK | mqtt::PUBREC => {
+                            let rc = if fail { *choose(&mut rng, &PUB_REASONS[2..]) } else { *choose(&mut rng, &PUB_REASONS[..2]) };
+                            json!({"t": mqtt::tname(t), "id": id, "rc": rc, "props": props})
+                        }
+                        mqtt::PUBCOMP => {
+                            let rc = if fail { PUBCOMP_REASONS[1] } else { 0 };
+                            json!({"t": "PUBCOMP", "id": id, "rc": rc, "props": props})
+                        }
+                        mqtt::SUBACK => {
+                            let rcs: Vec<u8> = (0..nf).map(|_| *choose(&mut rng, &SUBACK_REASONS)).collect();
+                            json!({"t": "SUBACK", "id": id, "rcs": rcs, "props": props})
+                        }
+                        _ => {
+                            let rcs: Vec<u8> = (0..nf).map(|_| *choose(&mut rng, &UNSUBACK_REASONS)).collect();
+                            json!({"t": "UNSUBACK", "id": id, "rcs": rcs, "props": props})
+                        }
+                    };
+                    do_step(&mut s, &mut rng, &mut script, json!({"a": "pkt", "pk": pk}));
+                }
+            }
+            "unsol" => {
+                // acknowledgement for an identifier nobody is waiting for
+                let t = *choose(&mut rng, &["PUBACK", "PUBREC", "PUBCOMP", "SUBACK", "UNSUBACK", "PINGRESP"]);
+                let pk = if t == "SUBACK" || t == "UNSUBACK" {
+                    json!({"t": t, "id": 60000 + rng.gen_range(0..100), "rcs": [0]})
+                } else if t == "PINGRESP" {
+                    json!({"t": t})
+                } else {
+                    json!({"t": t, "id": 60000 + rng.gen_range(0..100), "rc": 0})
+                };
+                do_step(&mut s, &mut rng, &mut script, json!({"a": "pkt", "pk": pk}));
+            }
+            "inbound" => {
+                let r = rng.gen_range(0..100);
+                if !b.q2_open.is_empty() && r < cfg.redeliver_pct {
+                    // re-delivery of an unreleased QoS 2 message (same content, DUP set)
+                    let (_, pkj) = choose(&mut rng, &b.q2_open).clone();
+                    let mut pkj = pkj;
+                    pkj["dup"] = json!(1);
+                    do_step(&mut s, &mut rng, &mut script, json!({"a": "pkt", "pk": pkj}));
+                } else if !b.q2_open.is_empty() && r < cfg.redeliver_pct + 30 {
+                    let i = rng.gen_range(0..b.q2_open.len());
+                    let (id, _) = b.q2_open.remove(i);
+                    do_step(&mut s, &mut rng, &mut script, json!({"a": "pkt", "pk": {"t": "PUBREL", "id": id, "rc": 0}}));
+                } else {
+                    let qos = rng.gen_range(0..3);
+                    let subs: Vec<usize> = s.wire.op_sid.keys().cloned().collect();
+                    let mut sids: Vec<Value> = vec![];
+                    let x = rng.gen_range(0..100);
+                    if x < cfg.nosid_pct || (subs.is_empty() && x < 50) {
+                    } else if x < cfg.nosid_pct + cfg.unknown_sid_pct || subs.is_empty() {
+                        sids.push(json!(900 + rng.gen_range(0..5)));
+                    } else {
+                        let first = *choose(&mut rng, &subs);
+                        sids.push(json!({"sub": first}));
+                        if subs.len() > 1 && rng.gen_range(0..100) < cfg.multi_sid_pct {
+                            let others: Vec<usize> = subs.iter().cloned().filter(|x| *x != first).collect();
+                            sids.push(json!({"sub": *choose(&mut rng, &others)}));
+                        }
+                    }
+                    b.next_in += 1;
+                    let used: Vec<u16> = b.q2_open.iter().map(|x| x.0).collect();
+                    let mut id = *choose(&mut rng, &[1u16, 2, 3, 255, 256, 65535]);
+                    while used.contains(&id) {
+                        id = id.wrapping_add(7).max(1);
+                    }
+                    let mut props = vec![];
+                    if rng.gen_range(0..4) == 0 {
+                        props.push(json!([0x26, "ik", format!("iv{}", b.next_in)]));
+                    }
+                    if rng.gen_range(0..5) == 0 {
+                        props.push(json!([0x03, "ct"]));
+                    }
+                    let pkj = json!({"t": "PUBLISH", "qos": qos, "id": id, "dup": 0, "retain": (rng.gen_range(0..5) == 0) as u8,
+                        "topic": format!("in/{}", b.next_in), "payload": {"tag": format!("i{}", b.next_in), "n": *choose(&mut rng, &[0usize, 3, 40, 200])},
+                        "sids": sids, "props": props});
+                    if qos == 2 {
+                        b.q2_open.push((id, pkj.clone()));
+                    }
+                    do_step(&mut s, &mut rng, &mut script, json!({"a": "pkt", "pk": pkj}));
+                }
+            }
+            "cancel" => {
+                let k = *choose(&mut rng, &live_ops);
+                do_step(&mut s, &mut rng, &mut script, json!({"a": "drop", "t": "op", "k": k}));
+            }
+            "dropst" => {
+                let k = *choose(&mut rng, &live_sts);
+                do_step(&mut s, &mut rng, &mut script, json!({"a": "drop", "t": "st", "k": k}));
+            }
+            "handle" => {
+                let hs: Vec<usize> = s.handles.iter().enumerate().filter(|(_, h)| h.is_some()).map(|(i, _)| i).collect();
+                if hs.len() < 3 && !hs.is_empty() {
+                    let h = *choose(&mut rng, &hs);
+                    do_step(&mut s, &mut rng, &mut script, json!({"a": "clone", "from": h}));
+                } else if hs.len() > 1 {
+                    let h = *choose(&mut rng, &hs);
+                    do_step(&mut s, &mut rng, &mut script, json!({"a": "drop", "t": "h", "k": h}));
+                }
+            }
+            "wr" => {
+                let m = *choose(&mut rng, &["block", "accept", "accept", "max"]);
+                let k = rng.gen_range(1..4);
+                do_step(&mut s, &mut rng, &mut script, json!({"a": "wrmode", "m": m, "k": k}));
+            }
+            "settle" => {
+                do_step(&mut s, &mut rng, &mut script, json!({"a": "settle", "sweep": true}));
+            }
+            _ => {}
+        }
+        if sweep_every {
+            do_step(&mut s, &mut rng, &mut script, json!({"a": "settle", "sweep": true}));
+        }
+        if s.ctx_returned || s.ctx_panicked {
+            ended = true;
+            break;
+        }
+    }
+    // ending
+    do_step(&mut s, &mut rng, &mut script, json!({"a": "wrmode", "m": "accept", "k": 0}));
+    do_step(&mut s, &mut rng, &mut script, json!({"a": "settle", "sweep": true}));
+    if !ended {
+        let e = *choose(&mut rng, &cfg.endings);
+        match e {
+            "disc" => {
+                let hs: Vec<usize> = s.handles.iter().enumerate().filter(|(_, h)| h.is_some()).map(|(i, _)| i).collect();
+                if let Some(h) = hs.first() {
+                    let rc = *choose(&mut rng, &[0u8, 0, 4, 0x80]);
+                    let mut spec = json!({"kind": "disc"});
+                    if rc != 0 || rng.gen_range(0..3) == 0 {
+                        spec["reason"] = json!(rc);
+                    }
+                    if rng.gen_range(0..3) == 0 {
+                        spec["rs"] = json!("bye");
+                    }
+                    do_step(&mut s, &mut rng, &mut script, json!({"a": "call", "op": next_op, "h": h, "spec": spec}));
+                }
+            }
+            "srvdisc0" => {
+                do_step(&mut s, &mut rng, &mut script, json!({"a": "pkt", "pk": {"t": "DISCONNECT", "rc": 0}, "form": 2}));
+            }
+            "srvdisc" => {
+                let rc = *choose(&mut rng, &DISCONNECT_REASONS[2..]);
+                let props = ack_content(&mut rng, 50);
+                do_step(&mut s, &mut rng, &mut script, json!({"a": "pkt", "pk": {"t": "DISCONNECT", "rc": rc, "props": props}, "form": 2}));
+            }
+            "eof" => {
+                do_step(&mut s, &mut rng, &mut script, json!({"a": "eof"}));
+            }
+            "rderr" => {
+                do_step(&mut s, &mut rng, &mut script, json!({"a": "rderr"}));
+            }
+            "wrerr" => {
+                do_step(&mut s, &mut rng, &mut script, json!({"a": "wrmode", "m": "err", "k": 0}));
+                let hs: Vec<usize> = s.handles.iter().enumerate().filter(|(_, h)| h.is_some()).map(|(i, _)| i).collect();
+                if let Some(h) = hs.first() {
+                    do_step(&mut s, &mut rng, &mut script, json!({"a": "call", "op": next_op, "h": h, "spec": {"kind": "ping"}}));
+                }
+            }
+            "handles" => {
+                for k in s.live_ops() {
+                    do_step(&mut s, &mut rng, &mut script, json!({"a": "drop", "t": "op", "k": k}));
+                }
+                for h in 0..s.handles.len() {
+                    if s.handles[h].is_some() {
+                        do_step(&mut s, &mut rng, &mut script, json!({"a": "drop", "t": "h", "k": h}));
+                    }
+                }
+            }
+            "ctxdrop" => {}
+            _ => {}
+        }
+        do_step(&mut s, &mut rng, &mut script, json!({"a": "settle", "sweep": true}));
+    }
+    if cfg.endings.len() > 1 || ended {
+        // the context goes away; a late operation must fail immediately (C14)
+        do_step(&mut s, &mut rng, &mut script, json!({"a": "drop", "t": "ctx", "k": 0}));
+        let hs: Vec<usize> = s.handles.iter().enumerate().filter(|(_, h)| h.is_some()).map(|(i, _)| i).collect();
+        if let Some(h) = hs.first() {
+            do_step(&mut s, &mut rng, &mut script, json!({"a": "call", "op": next_op + 1, "h": h, "spec": {"kind": "pub", "qos": 1, "topic": format!("t/{}", next_op + 1), "payload": "late"}}));
+        }
+        do_step(&mut s, &mut rng, &mut script, json!({"a": "settle", "sweep": true}));
+    }
+    (script, s.trace.clone())
 }
 
 pub fn smoke() -> Vec<String> {
     let p = Params { r: Some(2), ..Default::default() };
-    let mut s = start(&p);
-    s.call(1, 0, &json!({"kind": "pub", "qos": 1, "topic": "t/1", "payload": "hello"}));
-    s.call(2, 0, &json!({"kind": "sub", "filters": [{"f": "f/2", "qos": 2}]}));
-    s.call(3, 0, &json!({"kind": "pub", "qos": 2, "topic": "t/3", "payload": {"tag": "p", "n": 10}}));
-    s.call(4, 0, &json!({"kind": "ping"}));
-    run_woken(&mut s, 100);
-    let id1 = s.wire.op_id[&1];
-    let id2 = s.wire.op_id[&2];
-    let id3 = s.wire.op_id[&3];
-    s.inject_packet(&ack(mqtt::PUBACK, id1, 0), 9);
-    let mut sa = Pk::new(mqtt::SUBACK);
-    sa.id = Some(id2);
-    sa.rcs = vec![2];
-    s.inject_packet(&sa, 9);
-    s.inject_packet(&ack(mqtt::PUBREC, id3, 0), 9);
-    s.inject_packet(&Pk::new(mqtt::PINGRESP), 9);
-    run_woken(&mut s, 100);
-    s.inject_packet(&ack(mqtt::PUBCOMP, id3, 0), 9);
-    let mut m = Pk::new(mqtt::PUBLISH);
-    m.flags = 2;
-    m.id = Some(9);
-    m.topic = b"x/y".to_vec();
-    m.payload = b"data".to_vec();
-    m.props.push(Prop { id: 0x0b, v: PV::Vbi(s.wire.op_sid[&2]) });
-    s.inject_packet(&m, 9);
-    run_woken(&mut s, 100);
-    s.call(5, 0, &json!({"kind": "disc"}));
-    run_woken(&mut s, 100);
-    s.wr_mode(WrMode::Accept);
-    let _ = Task::Ctx;
-    s.drop_ctx();
-    run_woken(&mut s, 100);
-    s.trace.clone()
+    let (_, t) = walk(&p, &profile("ops"), 1);
+    t
 }
